@@ -261,10 +261,13 @@ def gen_history(rng, maxlen, nn=NN, nl=NL, nk=NK, theme=None):
 
     # weights per theme: (drain/refill, iterators, sorted, misc)
     W = [(6, 2, 1, 2), (2, 7, 1, 2), (2, 2, 7, 1), (3, 3, 3, 3), (5, 5, 0, 1)][theme]
-    if theme == 2 or rng.chance(1, 3):
+    # key scale: a comparator returns the key difference, so differences beyond the 8-, 16- and 31-bit ranges must occur
+    # (a comparison result narrowed to a smaller type only goes wrong there); negative keys too
+    K = rng.choice([1, 1, 1, 1, 60, 130, 40000, 70000, 500000000])
+    if theme == 2 or rng.chance(1, 3) or K > 1:
         for n in range(nn):                                  # few distinct keys: many equal ones
-            if rng.chance(2, 3):
-                emit(f'setkey {n} {rng.below(3)}')
+            if rng.chance(2, 3) or K > 1:
+                emit(f'setkey {n} {(rng.below(3) - (1 if K > 1 else 0)) * K}')
     guard = 0
     while len(h) < maxlen and guard < 4 * maxlen:
         guard += 1
@@ -298,7 +301,7 @@ def gen_history(rng, maxlen, nn=NN, nl=NL, nk=NK, theme=None):
             c = rng.below(6)
             if n is not None and s.is_sorted(l) and c < 4:
                 if rng.chance(1, 3):
-                    emit(f'setkey {n} {rng.below(3)}')
+                    emit(f'setkey {n} {(rng.below(3) - (1 if K > 1 else 0)) * K}')
                 emit(f'sorted {l} {n}')
             elif c == 4 and s.L[l]:
                 remove_at(l, rng.below(len(s.L[l])))
